@@ -38,8 +38,9 @@ type tunCfg struct {
 	Adversary  int // chaos frames injected
 	Director   int // epoch-level faults injected
 	Sticky     int
-	Window     int // gateway's outbound window (1 = stop-and-wait)
-	Starve     int // permille of library goroutines held back at start
+	Window     int  // gateway's outbound window (1 = stop-and-wait)
+	ReuseChan  bool // the gateway hands out the same channel id again after a reconnect
+	Starve     int  // permille of library goroutines held back at start
 	StarveMax  time.Duration
 	FaultFree  bool
 	MaxSteps   int
@@ -143,6 +144,9 @@ func drawTunCfg(e *Env) tunCfg {
 		c.LateMax = c.R / 4
 	}
 	c.Window = 1
+	if p == "C03" || p == "C09" || p == "C10" || p == "C04" {
+		c.ReuseChan = e.Choose("cfg.reusechan", 4) == 0
+	}
 	switch p {
 	case "C03":
 		if shape == 9 { // wrap run: more than 256 acknowledged requests
@@ -222,10 +226,10 @@ func drawTunCfg(e *Env) tunCfg {
 }
 
 func (c tunCfg) String() string {
-	return fmt.Sprintf("tcp=%v R=%v T=%v H=%v local=%v senders=%dx%d think=%v inbound=%d/%v reader=%s closers=%d early=%v up={drop=%d dup=%d late=%d dmax=%v} down={drop=%d dup=%d late=%d dmax=%v} tlate=%d adv=%d dir=%d sticky=%d window=%d starve=%d/%v",
+	return fmt.Sprintf("tcp=%v R=%v T=%v H=%v local=%v senders=%dx%d think=%v inbound=%d/%v reader=%s closers=%d early=%v up={drop=%d dup=%d late=%d dmax=%v} down={drop=%d dup=%d late=%d dmax=%v} tlate=%d adv=%d dir=%d sticky=%d window=%d starve=%d/%v reusechan=%v",
 		c.TCP, c.R, c.T, c.H, c.LocalAddr, c.Senders, c.SendsEach, c.Think, c.Inbound, c.InboundGap, c.Reader, c.Closers, c.CloseEarly,
 		c.Up.DropPermille, c.Up.DupPermille, c.Up.LatePermille, c.Up.DelayMax, c.Down.DropPermille, c.Down.DupPermille, c.Down.LatePermille, c.Down.DelayMax,
-		c.TimerLate, c.Adversary, c.Director, c.Sticky, c.Window, c.Starve, c.StarveMax)
+		c.TimerLate, c.Adversary, c.Director, c.Sticky, c.Window, c.Starve, c.StarveMax, c.ReuseChan)
 }
 
 func idMessage(id int) cemi.Message {
@@ -312,6 +316,7 @@ func runTunnel(e *Env) {
 	}
 	r.gw = newGateway(e, gwIP, gwPort)
 	r.gw.Window = c.Window
+	r.gw.ReuseChannel = c.ReuseChan
 	r.gw.Start()
 
 	tun, err := knx.NewTunnel(fmt.Sprintf("%s:%d", gwIP, gwPort), knxnet.TunnelLayerData, knx.TunnelConfig{
@@ -623,11 +628,13 @@ func (r *tunRun) finish() {
 	r.drain = true
 	s.SleepFor(2*c.T + 2*c.R + 3*time.Second)
 	r.h.Settled = e.Stamp()
-	// Phase 3: close (unless a closer did) and observe the aftermath.
+	// Phase 3: close (unless a closer did) and observe the aftermath. Library calls run in their
+	// own tasks with a deadline: a call that hangs is a finding, not the end of the harness.
+	long := time.Duration(c.Senders*c.SendsEach+6) * (c.T + c.R) * 2
 	if !r.closed {
-		r.doClose()
+		e.Call("final-close", long, r.doClose)
 	} else {
-		s.WaitUntil("closers-done", func() bool {
+		e.WaitDone("closers-done", long, func() bool {
 			for _, cc := range r.h.Closes {
 				if !cc.Done {
 					return false
@@ -637,8 +644,16 @@ func (r *tunRun) finish() {
 		})
 	}
 	// Sends after Close must fail promptly.
-	for i := 0; i < 2; i++ {
-		r.doSend(lateSender)
+	closeReturned := false
+	for _, cc := range r.h.Closes {
+		if cc.Done {
+			closeReturned = true
+		}
+	}
+	if closeReturned {
+		for i := 0; i < 2; i++ {
+			e.Call("late-send", long, func() { r.doSend(lateSender) })
+		}
 	}
 	s.SleepFor(c.T + c.R + time.Millisecond)
 	closeChan("stop", r.stop)
